@@ -30,7 +30,8 @@ Clauses(e) ==
       no_missing_values |-> \A k \in DOMAIN e.outs : ~e.outs[k].nan,
       only_target_fields |-> \A k \in DOMAIN e.outs : FieldsOK(e.outs[k]),
       names     |-> okCount => \A k \in 1..n : NamesOK(e, k),
-      source_untouched |-> e.src_after = e.src ]
+      source_untouched |-> e.src_after = e.src,
+      result_stable |-> e.outs_after = e.outs ]   \* unchanged by a later, unrelated conversion
 
 Failing(e) == LET c == Clauses(e) IN { k \in DOMAIN c : ~c[k] }
 Init == l = 1 /\ nbad = 0
